@@ -837,7 +837,9 @@ class TimedStore(typing.Generic[KT]):
             )
             return
 
-        asyncio.get_event_loop().call_soon(callback, entry, address)
+        # must be called immediately, like in stop(): a deferred notification could be
+        # overtaken by the notification for a refresh of the same entry
+        callback(entry, address)
 
     def entries(self) -> typing.Iterator[KT]:
         return itertools.chain.from_iterable(x.keys() for x in self.store.values())
